@@ -54,9 +54,34 @@ GROUPS.append(Group('K1', 'AnsiSetting.valid is True exactly when the text has n
                     ['C15', 'C01'], 'U', ['AnsiSetting.valid'], k1_items, k1_task,
                     bounds='none: any text length (loop cut by the invariant "no final byte among the first i characters")'))
 
+# ============================================================================================= K1b: valid on short texts (bounded)
+# stands in when the loop of AnsiSetting.valid no longer has the shape the invariant of K1 is written for
+K1B_ALPHABET = (48, 57, 59, 32, 63, 64, 65, 109, 126, 127, 95)
+
+
+def k1b_items(tier):
+    return [[n] for n in range(1, (4 if tier == 'quick' else 6))]
+
+
+def k1b_task(envr, item):
+    def body(c):
+        cps = []
+        for i in range(item[0]):
+            cp = c.named_int('c%d' % i)
+            c.assume(b_or(*[i_cmp('==', cp, a) for a in K1B_ALPHABET]))
+            cps.append(cp)
+        st = PObj('AnsiSetting', {'_str': sym.s_from_chars(cps)})
+        run_contract(envr, c, 'AnsiSetting.valid', st, [], {}, CL_K1)
+    return ContractRun(body, CL_K1)
+
+
+GROUPS.append(Group('K1b', 'AnsiSetting.valid on short texts over the boundary bytes of the final-byte range (bounded stand-in for K1)',
+                    ['C15'], 'B', ['AnsiSetting.valid'], k1b_items, k1b_task,
+                    bounds='texts of length <=3/5 over 0 9 ; space ? @ A m ~ DEL _ (symbolic characters)'))
+
 # ============================================================================================= K2: parsable (bounded text length)
 # alphabet of the property: digits, ';', space, other parameter bytes, final bytes
-K2_ALPHABET = (48, 49, 50, 51, 53, 56, 57, 59, 32, 58, 63, 109, 65, 95)
+K2_ALPHABET = (48, 49, 50, 51, 53, 56, 57, 59, 32, 58, 63, 109, 65, 95, 64, 126)
 CL_K2 = [Clause('parsable-iff-one-complete-known-group', 'post_parsable_is_spec'), Clause('answer-cached', 'post_parsable_cached')]
 
 
